@@ -80,7 +80,7 @@ def _one(run, mod, m, tag, mkargs, dm_present, gv_present, nac_present):
     def run_fc(ex, st_, args, kwargs):
         # Phonopy._run_force_constants_from_forces: binds freshly computed force constants (contract: assigns
         # self._force_constants only)
-        st_.heap[args[0].id].attrs["_force_constants"] = Opaque("force constants computed from the force sets")
+        st_.heap[ex.hook_self.id].attrs["_force_constants"] = Opaque("force constants computed from the force sets")
         return None
     hooks = {"new:get_dynamical_matrix": new_dm, "Phonopy._run_force_constants_from_forces": run_fc, "new:GroupVelocity": new_gv, "phonopy._phonopy.use_openmp": lambda ex, st_, a, k: z3.Bool("use_openmp"),
              "Primitive.set_masses": set_masses, "Supercell.set_masses": set_masses, "PhonopyAtoms.set_masses": set_masses,
